@@ -453,7 +453,10 @@ def check_C12(tier):
     # the specification computes the loop of single adds
     n = 70 if quick else 400
     lt = [L.random_history(rng, focus="batch") for _ in range(n)]
-    gt = [G.random_history(rng, focus="batch") for _ in range(n)]
+    gt = [G.random_history(rng, focus="batch") for _ in range(n - n // 4)]
+    # ... and on keys at the ceiling of small-max_count sketches (a multiplicity that saturates part-way
+    # must leave the same n_added as the single adds)
+    gt += [G.random_history(rng, focus="batchceil") for _ in range(n // 4)]
     ht = [H.random_history(rng, focus="batch") for _ in range(n)]
     yt = [Y.random_history(rng) for _ in range(n)]
     for i in range(0, n, 150):
@@ -500,6 +503,7 @@ def check_C20(tier):
     for kind in ("linear", "log16", "log8", "hll", "hh"):
         for j in range(2 if quick else 4):
             files.append(P.prefix_events(rng, kind, stride=1 if j % 2 == 0 else (7 if quick else 1), overwrite=(j % 2 == 1)))
+        files.append(P.prefix_events(rng, kind, large=True))
     P.validate(rep, files, [], "c20")
     per = {}
     for f in files:
